@@ -45,11 +45,11 @@ def secNs : Int := 1000000000
 /-- `DeserializeDuration` on a JSON string; result in nanoseconds (int64 wrap-around as in Go) -/
 def deserDuration (s : List Char) : LRes Int :=
   match s with
-  | [] => .panic                                         -- s[0] on ""
+  | [] => .err                                           -- "": no 'P'
   | c :: rest =>
     let (neg, s1) := if c == '-' then (true, rest) else (false, c :: rest)
     match s1 with
-    | [] => .panic                                       -- s[0] on "" after stripping '-'
+    | [] => .err                                         -- "-": no 'P'
     | p :: s2 =>
       if p != 'P' then .err else
       let (gy, s3) := optGroup 'Y' s2
